@@ -2,9 +2,9 @@
 package c13
 
 import (
-	"strings"
 	"fmt"
 	"reflect"
+	"strings"
 	"time"
 	"unsafe"
 
@@ -28,8 +28,87 @@ func schemas(tier string) []univ.SNode {
 		d = 3
 	}
 	s := univ.DataSchemas(d, true)
+	// time.Time carried by a long that has NO logical type of the specification's: the plain name, the object form
+	// {"type":"long"}, an annotation nobody knows — the library's documented convention (nanoseconds) applies to all
+	objLong, madeUp := ref.Logical("long", ""), ref.Logical("long", "made-up-by-the-caller")
+	for _, x := range []univ.SNode{
+		{Schema: ref.Prim("long"), Chain: "time-under:long"},
+		{Schema: objLong, Chain: "time-under:long-objectform"},
+		{Schema: madeUp, Chain: "time-under:long-unknown-logical"},
+		{Schema: ref.Union(ref.Prim("null"), objLong), Chain: "time-under:[null,long-objectform]", Depth: 1},
+		{Schema: ref.Union(objLong, ref.Prim("null")), Chain: "time-under:[long-objectform,null]", Depth: 1},
+		{Schema: ref.Array(objLong), Chain: "time-under:array>long-objectform", Depth: 1},
+	} {
+		s = append(s, x)
+	}
+	// collections far longer than anything a writer would put in one block by default
+	s = append(s, univ.SNode{Schema: ref.Array(ref.Prim("long")), Chain: "long-collections:array>long", Depth: 1},
+		univ.SNode{Schema: ref.Array(ref.Prim("string")), Chain: "long-collections:array>string", Depth: 1},
+		univ.SNode{Schema: ref.Map(ref.Prim("long")), Chain: "long-collections:map>long", Depth: 1})
 	memo[tier] = s
 	return s
+}
+
+// targetsOf / datumsOf: the special nodes above bring their own targets and datums.
+func targetsOf(n univ.SNode) []reflect.Type {
+	if strings.HasPrefix(n.Chain, "time-under:") {
+		switch n.Schema.Type {
+		case "union":
+			return []reflect.Type{reflect.PointerTo(gv.TimeT)}
+		case "array":
+			return []reflect.Type{reflect.SliceOf(gv.TimeT)}
+		}
+		return []reflect.Type{gv.TimeT, reflect.PointerTo(gv.TimeT)}
+	}
+	return univ.Targets(n.Schema, true)
+}
+
+func datumsOf(n univ.SNode, full bool) []ref.Datum {
+	if strings.HasPrefix(n.Chain, "long-collections:") {
+		var out []ref.Datum
+		for _, cnt := range []int{4095, 4096, 4097, 10000, 70000} {
+			var items []ref.Datum
+			var keys []string
+			for i := 0; i < cnt; i++ {
+				switch n.Schema.Type {
+				case "map":
+					keys = append(keys, fmt.Sprintf("k%05d", i))
+					items = append(items, ref.DLong(int64(i)*3-7))
+				default:
+					if n.Schema.Items.Type == "string" {
+						items = append(items, ref.DString(fmt.Sprintf("s%d", i)))
+					} else {
+						items = append(items, ref.DLong(int64(i)*3-7))
+					}
+				}
+			}
+			if n.Schema.Type == "map" {
+				out = append(out, ref.DMap(keys, items))
+			} else {
+				out = append(out, ref.DArray(items...))
+			}
+		}
+		return out
+	}
+	if strings.HasPrefix(n.Chain, "time-under:") {
+		ls := []ref.Datum{ref.DLong(0), ref.DLong(1), ref.DLong(-1), ref.DLong(1614834367123456789), ref.DLong(-86400000000001)}
+		switch n.Schema.Type {
+		case "union":
+			ni := 0
+			if n.Schema.Branches[0].Type != "null" {
+				ni = 1
+			}
+			out := []ref.Datum{ref.DUnion(ni, ref.DNull())}
+			for _, l := range ls {
+				out = append(out, ref.DUnion(1-ni, l))
+			}
+			return out
+		case "array":
+			return []ref.Datum{ref.DArray(), ref.DArray(ls...)}
+		}
+		return ls
+	}
+	return univ.Datums(n.Schema, full)
 }
 
 var otherZones = []*time.Location{time.FixedZone("west", -5*3600), time.FixedZone("east", 14*3600), time.FixedZone("half", -(3*3600 + 1800))}
@@ -140,8 +219,8 @@ func runNode(c *fw.Ctx, idx int, n univ.SNode) {
 	rs := ref.Record("Top", ref.F("f", n.Schema))
 	schemaJSON := rs.Print(nil)
 	full := n.Depth <= 1
-	datums := univ.Datums(n.Schema, full)
-	for _, ft := range univ.Targets(n.Schema, true) {
+	datums := datumsOf(n, full)
+	for _, ft := range targetsOf(n) {
 		for _, tag := range []string{`json:"f"`, `json:"f,omitempty"`} {
 			st := reflect.StructOf([]reflect.StructField{{Name: "F", Type: ft, Tag: reflect.StructTag(tag)}})
 			tname := fmt.Sprintf("struct{F %s `%s`}", ft, tag)
@@ -251,7 +330,7 @@ func runNode(c *fw.Ctx, idx int, n univ.SNode) {
 		runNearMissFixed(c, n, rs, schemaJSON)
 	}
 	if idx%41 == 0 {
-		c.Sample(map[string]interface{}{"schema": schemaJSON, "targets": len(univ.Targets(n.Schema, true)), "datums": len(datums)})
+		c.Sample(map[string]interface{}{"schema": schemaJSON, "targets": len(targetsOf(n)), "datums": len(datums)})
 	}
 }
 
